@@ -416,6 +416,19 @@ func (c13) Run(c *fw.Case) {
 		calls = append(first, calls...)
 	}
 
+	if c.Idx%3 == 1 {
+		// in another third EVERY goroutine starts by resolving the shared tree with the SAME options value that carries no Loader
+		// (the remote reference then fails to load): k simultaneous calls that may only read their options
+		first := make([]c13call, 0, k+len(calls))
+		for g := 0; g < k; g++ {
+			first = append(first, c13call{"W4-resolve-shared-options", func() string {
+				_, err := rootS.Resolve(sharedNoLoader)
+				return fmt.Sprint(err == nil)
+			}})
+		}
+		calls = append(first, calls...)
+	}
+
 	// --- hook: seeded yields and window widening ---
 	var yields, missWindows, hookEvents atomic.Int64
 	hseed := uint64(c.Idx)*7919 + c.Seed
